@@ -3,7 +3,9 @@ package checks
 import (
 	"bytes"
 	"encoding/json"
+	"errors"
 	"fmt"
+	"io"
 	"math/rand"
 	"os"
 	"path/filepath"
@@ -53,6 +55,7 @@ type c07Case struct {
 	Seed    int64      `json:"seed"`
 	BadLine string     `json:"bad_line,omitempty"`
 	BadPos  int        `json:"bad_pos,omitempty"`
+	Input   string     `json:"input,omitempty"`
 	Setting c07Setting `json:"setting"`
 }
 
@@ -179,12 +182,16 @@ func c07StuckGoroutines() []string {
 // c07Compile runs one compile with a watchdog. hung=true comes with a structural witness when all
 // compiler goroutines are blocked at identical frames in two dumps taken 2 s apart.
 func c07Compile(text []byte, s c07Setting, path string, limit time.Duration) (err error, hung bool, witness string) {
+	return c07CompileFrom(bytes.NewReader(text), s, path, limit)
+}
+
+func c07CompileFrom(rd io.Reader, s c07Setting, path string, limit time.Duration) (err error, hung bool, witness string) {
 	done := make(chan error, 1)
 	go func() {
 		if s.CDB {
-			done <- harness.CompileCDB(text, path, s.Workers)
+			done <- harness.CompileCDBFrom(rd, path, s.Workers)
 		} else {
-			done <- harness.CompileRDB(text, path, s.RDB)
+			done <- harness.CompileRDBFrom(rd, path, s.RDB)
 		}
 	}()
 	select {
@@ -319,8 +326,103 @@ func c07CheckFailing(lines []string, bad string, pos int, s c07Setting) (msg str
 	return "", ""
 }
 
+// c07Reader delivers text in reads of at most chunk bytes and, when failAt >= 0, fails with errInjected once
+// failAt bytes have been delivered (withData: the failing read also returns the bytes before the fault).
+type c07Reader struct {
+	text     []byte
+	off      int
+	chunk    int
+	failAt   int
+	withData bool
+}
+
+var errC07Injected = errors.New("injected read error")
+
+func (r *c07Reader) Read(p []byte) (int, error) {
+	if r.failAt >= 0 && r.off >= r.failAt {
+		return 0, errC07Injected
+	}
+	if r.off >= len(r.text) {
+		return 0, io.EOF
+	}
+	n := len(p)
+	if r.chunk > 0 && n > r.chunk {
+		n = r.chunk
+	}
+	if n > len(r.text)-r.off {
+		n = len(r.text) - r.off
+	}
+	if r.failAt >= 0 && r.off+n >= r.failAt {
+		n = r.failAt - r.off
+		copy(p, r.text[r.off:r.off+n])
+		r.off += n
+		if r.withData || n == 0 {
+			return n, errC07Injected
+		}
+		return n, nil
+	}
+	copy(p, r.text[r.off:r.off+n])
+	r.off += n
+	return n, nil
+}
+
+// c07CheckInput: the way the input arrives must not make a compilation succeed with records missing.
+// kind "shortreads": the reader returns 1..chunk bytes per call - the database must equal the reference;
+// kind "readerror": the reader fails after pos bytes - the compilation must fail (or, succeeding, hold the whole file);
+// kind "longline": a comment line longer than the scanner's 64 KiB token limit sits at line pos - the compilation may fail
+// as a whole, but if it reports success the database must hold every record of the file.
+func c07CheckInput(lines []string, s c07Setting, kind string, pos int) (msg string, inconclusive string) {
+	ref, err := c07Reference(lines, s)
+	if err != nil {
+		return "", "reference codec rejected the file: " + err.Error()
+	}
+	l2 := lines
+	if kind == "longline" {
+		l2 = append(append(append([]string{}, lines[:pos]...), "#"+strings.Repeat("x", 66000+pos%5000)), lines[pos:]...)
+	}
+	text := []byte(strings.Join(l2, "\n") + "\n")
+	rd := &c07Reader{text: text, failAt: -1}
+	switch kind {
+	case "shortreads":
+		rd.chunk = 1 + pos%97
+	case "readerror":
+		rd.failAt = pos % len(text)
+		rd.withData = pos%2 == 0
+		rd.chunk = 4096
+	}
+	path := c07Path(s)
+	defer harness.Remove(path)
+	err, hung, witness := c07CompileFrom(rd, s, path, c07Limit(len(lines)))
+	if hung {
+		if witness != "" {
+			return "compilation (" + kind + ") does not return (structural deadlock witness):\n" + witness, ""
+		}
+		return "", "compile (" + kind + ") still running after the watchdog"
+	}
+	if err != nil {
+		if kind == "shortreads" {
+			return "compilation failed because the reader returned short reads: " + err.Error(), ""
+		}
+		return "", "" // failed as a whole: allowed
+	}
+	var got harness.Dump
+	if s.CDB {
+		got, err = harness.DumpCDB(path)
+	} else {
+		got, err = harness.DumpRDB(path)
+	}
+	if err != nil {
+		return "dump failed: " + err.Error(), ""
+	}
+	if d := harness.DiffMultiset(got, ref); d != "" {
+		what := map[string]string{"shortreads": "the reader returned short reads", "readerror": fmt.Sprintf("the reader failed after %d of %d bytes", rd.failAt, len(text)), "longline": fmt.Sprintf("line %d is a %d-byte comment", pos+1, len(l2[pos]))}[kind]
+		return fmt.Sprintf("compilation reported success although %s, and the database does not hold the file's records: %s", what, d), ""
+	}
+	return "", ""
+}
+
 func runC07(r *report.Run) {
-	r.SetRule("data files of ~50, ~5 000 and ~70 000 records (generated worlds and synthetic numbered names with hot keys of 2-600 values placed across the bulk loader's bucket cuts at 30 000/60 000 and across every batch boundary, plus comments/blank/indented lines) compiled under 11 settings (CDB workers 1/4/16; RocksDB builder with 1/4/16 CPUs; batches of size 7/1000/default with parallelism 1/4/0; v1/v2 keys); the full raw dump (key -> multiset of values) must equal the records the sequential line codec emits plus accumulator and feature records. Failing-line variant: one rejected line at a random position must make every setting fail (CreateCDB must remove its output). A compile that does not return is examined with a structural deadlock witness. non-trivial = (file, setting) with >=1 key holding >=2 values; distinct by (file, setting)")
+	r.SetRule("data files of ~50, ~5 000 and ~70 000 records (generated worlds and synthetic numbered names with hot keys of 2-600 values placed across the bulk loader's bucket cuts at 30 000/60 000 and across every batch boundary, plus comments/blank/indented lines) compiled under 11 settings (CDB workers 1/4/16; RocksDB builder with 1/4/16 CPUs; batches of size 7/1000/default with parallelism 1/4/0; v1/v2 keys); the full raw dump (key -> multiset of values) must equal the records the sequential line codec emits plus accumulator and feature records. Failing-line variant: one rejected line at a random position must make every setting fail (CreateCDB must remove its output). Input-delivery variants: a reader returning short reads (database must be complete), a reader failing after N bytes and a comment line beyond the scanner's 64 KiB limit (the compilation may fail as a whole, but success with records missing is a violation). A compile that does not return is examined with a structural deadlock witness. non-trivial = (file, setting) with >=1 key holding >=2 values; distinct by (file, setting)")
 	r.Assume("reference = the repository's own line codec run sequentially, as the statement defines it; order of values under one key is not compared (multiset)")
 	type fileSpec struct {
 		kind string
@@ -394,6 +496,29 @@ func runC07(r *report.Run) {
 				}
 			}
 		}
+		// input-delivery variants on the small and medium files
+		if f.n <= 5000 {
+			for ki, kind := range []string{"shortreads", "readerror", "readerror", "longline", "longline"} {
+				for si, s := range c07Settings {
+					if (si+ki+fi)%3 != 0 || deadlocked[s.Name] {
+						continue
+					}
+					pos := rng.Intn(len(lines))
+					if kind == "readerror" {
+						pos = rng.Intn(len(lines) * 20)
+					}
+					msg, inc := c07CheckInput(lines, s, kind, pos)
+					r.Eval(1)
+					r.Count("input_delivery_compilations_"+kind, 1)
+					if inc != "" {
+						r.Inconclusive(s.Name + ": " + inc)
+					}
+					if msg != "" {
+						r.Violation("", fmt.Sprintf("%s: %s", s.Name, msg), c07Case{Kind: f.kind, N: f.n, Seed: seed, Setting: s, Input: kind, BadPos: pos})
+					}
+				}
+			}
+		}
 		if r.Violations() >= 10 {
 			break
 		}
@@ -451,6 +576,8 @@ func replayC07(r *report.Run, raw json.RawMessage) {
 	var msg string
 	if c.BadLine != "" {
 		msg, _ = c07CheckFailing(lines, c.BadLine, c.BadPos, c.Setting)
+	} else if c.Input != "" {
+		msg, _ = c07CheckInput(lines, c.Setting, c.Input, c.BadPos)
 	} else {
 		msg, _, _ = c07Check(lines, c.Setting)
 	}
